@@ -1,7 +1,7 @@
 """C07 — results are independent of thread interleaving."""
 import vlib
 from checks import sesscheck as SC
-from checks.c06 import scale_read, scale_write
+from checks.c06 import scale_read, scale_write, m2_read, m2_write
 
 LEVEL = "model_checking"
 
@@ -17,6 +17,10 @@ def run(rep, tier, seed):
                        "random schedules must deliver the expected ids / produce one single output hash")
     SC.model_and_replay(rep, "r", SC.read_grid(tier), "c07_r_" + tier, R_INV, liveness=False, key="read")
     SC.model_and_replay(rep, "w", SC.write_grid(tier), "c07_w_" + tier, W_INV, liveness=False, key="write")
+    nt = 3 if tier == "quick" else 12
+    SC.trace_validate(rep, "r", m2_read(tier), "c07_Tr_" + tier, seed + 1, nt,
+                      ["DeliveredIsPrefix", "PipelineOrder", "NullIsLast", "EofOnlyAfterLast", "DoneDeliveredAll", "StatsExact"], key="read")
+    SC.trace_validate(rep, "w", m2_write(tier), "c07_Tw_" + tier, seed + 1, nt, ["FileOutUnique", "StatsExact", "NoOversize"], key="write")
     runs = 8 if tier == "quick" else 60
     rr, _ = SC.random_runs(rep, "r", scale_read(tier), "c07_R_" + tier, seed, runs, key="read")
     for r in rr:
